@@ -19,6 +19,14 @@ narrow alphabet) of {estimate, quick_estimate, calculate_likelihood_and_derivati
 point, set tolerance, set max_iterations, set optimization_algorithm}; every estimation in the history is judged with the
 options in force when it was launched, and after every operation every results object obtained earlier must still
 report the likelihood, gradient, Hessian and BHHH at its own estimates.
+Formulas given as a dictionary: tables of a sub-family x EVERY vector of observation weights over a two-value alphabet x
+{log likelihood under 'log_like' / 'loglike'} x {weight formula under 'weight' / 'weights' / absent} x order of the entries
+x form of the weight formula (WG, WG * constant) x a further formula over a model parameter; the stated likelihood is
+sum_i weight_i * loglike_i (reference: weighted closed forms, BHHH = sum_i weight_i g_i g_i'), all per-run clauses.
+Iteration file: every sequence of 2 (thorough: also 3) estimations {estimate, quick_estimate} of models of ONE name in ONE
+directory with save_iterations=True, the models ranging over the template and every change of status of one parameter
+(free -> fixed, fixed -> free); the file left by the earlier estimations is the environment of the next one; every
+estimation judged by all per-run clauses against the reference of its own model.
 """
 from __future__ import annotations
 
@@ -35,10 +43,13 @@ TECHNIQUE = ('bounded exhaustive enumeration of (concave model template x every 
              'estimate()/quick_estimate(), compared with a plain-Python closed-form likelihood, derivatives and an '
              'active-set/Newton reference optimum; bootstrap resamples owned and enumerated; every operation history '
              '(estimations, evaluations, option setters) of bounded depth on one object, each estimation judged with the '
-             'options in force, every earlier results object re-read after every operation')
+             'options in force, every earlier results object re-read after every operation; dictionaries of formulas over '
+             'every keyword / order / weight-vector combination against the weighted reference; every short sequence of '
+             'estimations of same-named models (one parameter changing status) sharing the iteration file of a directory')
 RULE = ('one case per real estimation run (model, table, bound configuration, start, algorithm variant, entry point) '
         'and one per (table, resample vector) bootstrap history and one per (table, bounds, construction options, '
-        'operation sequence) object history; a case is non-trivial when the table was accepted '
+        'operation sequence) object history and one per (table, weight vector, dictionary form) estimation and one per '
+        '(table, bounds, algorithm, sequence of (model variant, entry point)) iteration-file history; a case is non-trivial when the table was accepted '
         'by the reference (finite, well conditioned interior maximum) and the run returned results; '
         'distinct = distinct (model, table, bounds, start, algorithm variant, entry point[, resample]) keys. '
         'Rejected tables (separation / ill conditioning) are counted, never sent to the library.')
@@ -91,6 +102,10 @@ YVALS = [(0.5, 1.5, 3.0), (0.0, 1.0, 2.5), (1.0, 2.0, 2.5), (-0.5, 0.5, 2.0), (0
 ALT_IDS = [(1, 2, 3), (0, 1, 2), (3, 1, 2), (2, 5, 7), (1, 3, 2)][_A]
 FIXVAL = [0.5, -0.25, 0.75, 0.3, -0.6][_A]
 SIGMA = [0.75, 1.25, 0.5, 1.5, 0.9][_A]
+# observation weights (column WG) of the dictionary-of-formulas part: every vector over these two values; WSCALE is the
+# constant of the weight formula WG * WSCALE
+WVALS = [(0.5, 2.0), (1.5, 0.25), (2.0, 0.75), (0.4, 1.6), (3.0, 0.5)][_A]
+WSCALE = [2.0, 0.5, 1.5, 0.25, 3.0][_A]
 # names: order of appearance in the formulas != ASCII order != "natural" order; the fixed one sorts first
 NAMES = [
     dict(b='b_z', asc1='B2', asc2='b10', c='b_a', fix='A_fix', sig='A0_sigma', a='beta[0]'),
@@ -155,12 +170,14 @@ def templates():
     }
 
 
-def make_table(tpl, nrows, code):
-    """code: tuple of per-row symbols (alternative position for logit, y-grid index for normal)."""
+def make_table(tpl, nrows, code, wvec=None):
+    """code: tuple of per-row symbols (alternative position for logit, y-grid index for normal); wvec: per-row index
+    into WVALS for the column WG (None: WG = 1 everywhere)."""
     rows = []
     for i in range(nrows):
         x1, x2, x3, w1, w2, w3 = ATTR[i]
-        d = dict(X1=x1, X2=x2, X3=x3, W1=w1, W2=w2, W3=w3, U0=float(7 - i), CH=0.0, Y=0.0, WG=1.0, ID=float(i // 2 + 1))
+        d = dict(X1=x1, X2=x2, X3=x3, W1=w1, W2=w2, W3=w3, U0=float(7 - i), CH=0.0, Y=0.0,
+                 WG=(1.0 if wvec is None else float(WVALS[wvec[i]])), ID=float(i // 2 + 1))
         if tpl['kind'] == 'logit':
             d['CH'] = float(tpl['alts'][code[i]][0])
         else:
@@ -172,7 +189,9 @@ def make_table(tpl, nrows, code):
 class Problem:
     """Plain-Python likelihood with closed-form derivatives w.r.t. ALL parameters (free and fixed)."""
 
-    def __init__(self, tpl, rows):
+    def __init__(self, tpl, rows, weight=None):
+        """weight: None (the stated likelihood is the plain sum over the rows) or a factor c: the stated likelihood is
+        sum_i (c * WG_i) * loglike_i (the weight formula of the dictionary of formulas)."""
         self.kind = tpl['kind']
         self.K = len(tpl['params'])
         self.names = [p[0] for p in tpl['params']]
@@ -199,6 +218,7 @@ class Problem:
                     z[k] += 1.0 if c is None else r[col[c]]
                 self.obs.append((z, r[col['Y']]))
         self.sigma_idx = tpl.get('sigma')
+        self.w = [1.0 if weight is None else float(weight) * r[col['WG']] for r in rows]
 
     def full(self, xfree):
         b = list(self.init)
@@ -216,7 +236,7 @@ class Problem:
         g = [0.0] * nf
         H = [[0.0] * nf for _ in range(nf)]
         B = [[0.0] * nf for _ in range(nf)]
-        for ob in self.obs:
+        for ob, w in zip(self.obs, self.w):
             if self.kind == 'logit':
                 Z, c = ob
                 V = [sum(z[k] * beta[k] for k in range(K)) for z in Z]
@@ -224,7 +244,7 @@ class Problem:
                 e = [math.exp(v - m) for v in V]
                 s = sum(e)
                 P = [x / s for x in e]
-                ll += V[c] - m - math.log(s)
+                ll += w * (V[c] - m - math.log(s))
                 if order == 0:
                     continue
                 zbar = [sum(P[j] * Z[j][k] for j in range(len(Z))) for k in fr]
@@ -232,24 +252,24 @@ class Problem:
                 if order >= 2:
                     for a in range(nf):
                         for b_ in range(nf):
-                            H[a][b_] -= sum(P[j] * Z[j][fr[a]] * Z[j][fr[b_]] for j in range(len(Z))) - zbar[a] * zbar[b_]
+                            H[a][b_] -= w * (sum(P[j] * Z[j][fr[a]] * Z[j][fr[b_]] for j in range(len(Z))) - zbar[a] * zbar[b_])
             else:
                 z, y = ob
                 sg = beta[self.sigma_idx]
                 mu = sum(z[k] * beta[k] for k in range(K))
                 r = y - mu
-                ll += -math.log(sg) - 0.5 * math.log(2.0 * math.pi) - (r / sg) ** 2 / 2.0
+                ll += w * (-math.log(sg) - 0.5 * math.log(2.0 * math.pi) - (r / sg) ** 2 / 2.0)
                 if order == 0:
                     continue
                 gn = [r * z[k] / (sg * sg) for k in fr]
                 if order >= 2:
                     for a in range(nf):
                         for b_ in range(nf):
-                            H[a][b_] -= z[fr[a]] * z[fr[b_]] / (sg * sg)
+                            H[a][b_] -= w * (z[fr[a]] * z[fr[b_]] / (sg * sg))
             for a in range(nf):
-                g[a] += gn[a]
+                g[a] += w * gn[a]
                 for b_ in range(nf):
-                    B[a][b_] += gn[a] * gn[b_]
+                    B[a][b_] += w * gn[a] * gn[b_]
         return ll, g, H, B
 
 
@@ -441,8 +461,11 @@ def clip_start(s, lb, ub):
 
 # =========================================================================== the real thing
 def build_biogeme(tpl, rows, start, lb, ub, variant, share=True, boot_samples=None, as_dict=False, panel=False,
-                  overrides=None):
-    """start/lb/ub are given over the FREE parameters in template order."""
+                  overrides=None, fdict=None):
+    """start/lb/ub are given over the FREE parameters in template order.
+    fdict = [key of the log likelihood, key of the weight formula or None, weight entry first?, form of the weight
+    formula ('var': WG, 'scaled': WG * WSCALE), a further formula (first free parameter * U0) in the dictionary?]: the formulas are given as that
+    dictionary."""
     import pandas as pd
     import biogeme.biogeme as bb
     import biogeme.database as db
@@ -499,6 +522,16 @@ def build_biogeme(tpl, rows, start, lb, ub, variant, share=True, boot_samples=No
     if boot_samples is not None:
         kw['bootstrap_samples'] = boot_samples
     formulas = {'loglike': ll, 'weight': Variable('WG')} if as_dict else ll
+    if fdict is not None:
+        llkey, wkey, wfirst, wform, further = fdict
+        items = [(llkey, ll)]
+        if wkey is not None:
+            wf = Variable('WG') if wform == 'var' else Variable('WG') * WSCALE
+            items.insert(0 if wfirst else 1, (wkey, wf))
+        if further:
+            # a formula that is neither the likelihood nor the weight, over a parameter of the model
+            items.insert(1, ('U0 part', beta(free[0]) * Variable('U0')))
+        formulas = dict(items)
     b = bb.BIOGEME(d, formulas, parameters=Parameters(), **kw)
     b.modelName = 'm07'
     return b, made
@@ -555,7 +588,15 @@ def check_reported_derivatives(viol, prob, perm, data, xs, ref, tag='', when='',
         viol(tag + 'bhhh-not-at-estimates', f'reported BHHH {Bl} != reference BHHH at x* {ref_B}{when}', expected=ref_B, observed=Bl)
 
 
-def check_run(rec, tpl, rows, prob, refs, bname, lb, ub, bkind, sidx, variant, mode, case, light=False):
+def fdict_weight(fdict):
+    """The factor c of the stated likelihood sum_i (c * WG_i) * loglike_i for a dictionary of formulas (None: no
+    weight formula, plain sum)."""
+    if fdict is None or fdict[1] is None:
+        return None
+    return 1.0 if fdict[3] == 'var' else WSCALE
+
+
+def check_run(rec, tpl, rows, prob, refs, bname, lb, ub, bkind, sidx, variant, mode, case, light=False, fdict=None):
     """One real estimation + all per-run oracles.  refs = dict(free=(x, ll), box=(x, ll, act))."""
     import numpy as np
 
@@ -564,15 +605,18 @@ def check_run(rec, tpl, rows, prob, refs, bname, lb, ub, bkind, sidx, variant, m
     nf = len(prob.free)
     start = clip_start(STARTS[sidx][:nf], lb, ub)
     share = (sidx != 1)
-    b, made = build_biogeme(tpl, rows, start, lb, ub, variant, share=share, as_dict=(sidx == 2))
+    b, made = build_biogeme(tpl, rows, start, lb, ub, variant, share=share, as_dict=(sidx == 2 and fdict is None), fdict=fdict)
     names_lib = list(b.free_beta_names)
     free_names = [prob.names[k] for k in prob.free]
     perm = [free_names.index(nm) for nm in names_lib]  # library position -> template free position
+    ftag = '' if fdict is None else f'|formulas={{{fdict[0]},{fdict[1] or "no weight"}}}'
+    fctx = '' if fdict is None else f' formulas={fdict} WG={case.get("wvec")} of {list(WVALS)}'
 
     def viol(clause, what, expected=None, observed=None):
-        rec.violation(f'C07|{clause}|family={fam}|bounds={bkind}', f'{clause}: {what} [model={case["model"]} '
+        rec.violation((f'C07|{clause}|family={fam}|bounds={bkind}' if fdict is None else f'C07|{clause}{ftag}'),
+                      f'{clause}: {what} [model={case["model"]} '
                       f'table={case["code"]} bounds={bname} lb={lb} ub={ub} start={start} variant={variant} '
-                      f'entry={mode}]', case, expected=expected, observed=observed)
+                      f'entry={mode}{fctx}]', case, expected=expected, observed=observed)
 
     if sorted(names_lib) != sorted(free_names):
         viol('free-parameter-set', f'library free names {names_lib} != {free_names}')
@@ -615,9 +659,21 @@ def check_run(rec, tpl, rows, prob, refs, bname, lb, ub, bkind, sidx, variant, m
                 rec.retire = True
             viol(f'second-estimate-raised-{type(e).__name__}', f'{type(e).__name__}: {str(e)[:300]}', observed=repr(e)[:300])
     active = out['active']
-    rec.case((case['model'], tuple(case['code']), bname, sidx, variant, mode),
-             (case['model'], case['code'], bname, sidx, variant, mode, [_r(v) for v in xs], _r(ll_rep), conv),
-             outcome=(fam, bkind, conv, active if bounded else None, bool(infeasible), mode))
+    if fdict is None:
+        rec.case((case['model'], tuple(case['code']), bname, sidx, variant, mode),
+                 (case['model'], case['code'], bname, sidx, variant, mode, [_r(v) for v in xs], _r(ll_rep), conv),
+                 outcome=(fam, bkind, conv, active if bounded else None, bool(infeasible), mode))
+    else:
+        wv = tuple(case['wvec'])
+        # non-trivial: the weights matter (a weight formula over weights that are not all equal) or must not matter
+        # (no weight formula over a column WG that is not 1)
+        rec.case(('wdict', case['model'], tuple(case['code']), wv, tuple(fdict), bname, sidx, variant, mode),
+                 ('wdict', case['model'], case['code'], list(wv), list(fdict), bname, sidx, variant, mode, [_r(v) for v in xs],
+                  _r(ll_rep), conv),
+                 outcome=('wdict', fam, fdict[1], len(set(wv)) > 1, conv, mode))
+        rec.count('weighted_estimations' if fdict[1] is not None else 'estimations_of_a_dictionary_without_weight_formula')
+        if fdict[1] is not None and len(set(wv)) > 1:
+            rec.count('weighted_estimations_with_unequal_weights')
     rec.count('estimations')
     if conv:
         rec.count('converged')
@@ -1093,6 +1149,234 @@ def _hist_table(rec, task, tpl, rows, prob, xfree, base):
                         depth=task['depth'], histories=len(hs) * len(inits)))
 
 
+# =========================================================================== formulas given as a dictionary
+# The stated likelihood of a dictionary of formulas is sum_i weight_i * loglike_i: the log likelihood and the weight
+# formula may each be declared under either of their documented keywords, in any order, next to further formulas.
+LL_KEYS = ('log_like', 'loglike')
+W_KEYS = ('weight', 'weights')
+
+
+def fdicts():
+    out = [[lk, wk, wf, 'var', False] for lk in LL_KEYS for wk in W_KEYS for wf in (False, True)]
+    out += [['log_like', 'weights', False, 'scaled', True], ['loglike', 'weight', True, 'scaled', True],
+            ['log_like', None, False, 'var', False], ['loglike', None, False, 'var', True]]
+    return out
+
+
+def wdict_plan(tier):
+    """(model, rows, step through the table family) of the dictionary-of-formulas part; the weight column takes EVERY
+    vector over WVALS."""
+    if tier == 'quick':
+        return [('L2', 4, 2), ('N2', 3, 5), ('L3G', 4, 16)]
+    return [('L2', 5, 2), ('N2', 4, 4), ('L3G', 5, 20), ('L2F', 5, 4), ('N3', 4, 9), ('L3', 5, 30)]
+
+
+def _wdict_table(rec, task, tpl, base, ti):
+    tier = task['tier']
+    nrows = task['nrows']
+    code = base['code']
+    variants = ALGOS if tier == 'quick' else QUICK_VARIANTS
+    wvecs = list(itertools.product(range(len(WVALS)), repeat=nrows))
+    part, parts = task['wpart']
+    first = True
+    for wi, wvec in list(enumerate(wvecs))[part::parts]:
+        rows = make_table(tpl, nrows, code, wvec)
+        cache = {}
+        for fi, fd in enumerate(fdicts()):
+            c = fdict_weight(fd)
+            if c not in cache:
+                prob = Problem(tpl, rows, weight=c)
+                xfree, why = free_optimum(prob)
+                if xfree is None:
+                    rec.count('weighted_tables_rejected_' + why)
+                    rec.case(None, ('rejected', task['model'], code, list(wvec), c, why), outcome=('rejected', why))
+                cache[c] = (prob, xfree)
+            prob, xfree = cache[c]
+            if xfree is None:
+                continue
+            cfgs = bound_configs(xfree, 'quick', ti + wi)
+            bname, lb, ub, bkind = cfgs[(ti + wi + fi) % len(cfgs)]
+            refs = references(prob, lb, ub, xfree)
+            if bkind == 'active' and not any(refs['box'][2]):
+                raise RuntimeError(f'harness: bound configuration {bname} is not active at the reference optimum')
+            variant = variants[(ti + 2 * wi + fi) % len(variants)]
+            sidx = (ti + wi + fi // 2) % 3
+            mode = 'quick_estimate' if (wi + fi) % 4 == 3 else 'estimate'
+            case = dict(base, part='wdict', wvec=list(wvec), fdict=fd, bname=bname, lb=lb, ub=ub, bkind=bkind, sidx=sidx,
+                        variant=variant, mode=mode)
+            out = check_run(rec, tpl, rows, prob, refs, bname, lb, ub, bkind, sidx, variant, mode, case, light=(fi % 3 != 0),
+                            fdict=fd)
+            if first and out is not None and fd[1] is not None and len(set(wvec)) > 1:
+                rec.sample(dict(case, estimates=[_r(v) for v in out['xs']], logLike=_r(out['ll']),
+                                reference_optimum=[_r(v) for v in refs['box'][0]], converged=out['conv']))
+                first = False
+
+
+# =========================================================================== iteration file left in the directory
+# With save_iterations=True (the library's default) estimate() reads the file __<model name>.iter of the working
+# directory, which an earlier estimation of a model of that name has written: the usual sequence "estimate, change the
+# status of a parameter, estimate again".  The file is part of the environment of the estimation; the statement holds
+# for every estimation of such a sequence (the values of the file are an admissible starting point of the parameters
+# that are free in the model at hand).
+ITERFIX = [0.25, -0.5, 0.5, -0.25, 0.75][_A]
+ITER_NAME = 'm07'
+
+
+def status_variants(tpl):
+    """The model itself and every model obtained by changing the status of ONE parameter: a free parameter fixed at
+    ITERFIX, a fixed parameter of a linear term set free (never the scale of the normal density: not concave)."""
+    out = [('orig', tpl)]
+    for k, p in enumerate(tpl['params']):
+        q = dict(tpl, params=[list(x) for x in tpl['params']])
+        if p[1] == 0:
+            q['params'][k] = [p[0], 1, ITERFIX]
+            if not any(x[1] == 0 for x in q['params']):
+                continue
+            out.append((f'fix{k}', q))
+        elif k != tpl.get('sigma'):
+            q['params'][k] = [p[0], 0, 0.0]
+            out.append((f'free{k}', q))
+    return out
+
+
+def read_iteration_file():
+    """name -> value of the file the next estimate() of the model ITER_NAME will find, None if there is none."""
+    try:
+        with open(f'__{ITER_NAME}.iter', encoding='utf-8') as f:
+            lines = f.read().splitlines()
+    except OSError:
+        return None
+    out = {}
+    for line in lines:
+        name, sep, value = line.rpartition(' = ')
+        if not sep:
+            raise RuntimeError(f'harness: line {line!r} of the iteration file')
+        out[name] = float(value)
+    return out
+
+
+def remove_iteration_file():
+    for nm in (f'__{ITER_NAME}.iter', f'__{ITER_NAME}.iter.tmp'):
+        try:
+            os.remove(nm)
+        except OSError:
+            pass
+
+
+def iter_sequences(nvariants, depth):
+    """Every sequence of `depth` estimations (variant index, entry point)."""
+    steps = [(v, e) for v in range(nvariants) for e in ('E', 'Q')]
+    return [list(map(list, s)) for s in itertools.product(steps, repeat=depth)]
+
+
+def check_iter_history(rec, tpl, rows, wide, sidx, algo, seq, case):
+    """Estimations of several models of ONE name in ONE directory with save_iterations=True, a new BIOGEME object each;
+    every estimation judged by all per-run clauses against the reference of ITS model.  The start of estimate() is the
+    declared one or the declared one overlaid with the values the file holds for the free parameters of the model."""
+    variants = status_variants(tpl)
+    remove_iteration_file()
+    summary = []
+    prev = None
+    try:
+        for t, (vi, entry) in enumerate(seq):
+            vname, vt = variants[vi]
+            prob = Problem(vt, rows)
+            xfree, why = free_optimum(prob)
+            if xfree is None:
+                rec.count('iteration_file_histories_cut_at_a_model_without_reference_optimum')
+                summary.append((vname, 'rejected', why))
+                break
+            nf = len(prob.free)
+            lb = [-20.0] * nf if wide else [None] * nf
+            ub = [20.0] * nf if wide else [None] * nf
+            bname = bkind = 'wide' if wide else 'none'
+            if wide:
+                bkind = 'inactive'
+            refs = references(prob, lb, ub, xfree)
+            declared = [float(STARTS[sidx][k % 3]) for k in prob.free]
+            found = read_iteration_file()
+            starts = [declared]
+            if found is not None and entry == 'E':
+                over = [float(found.get(prob.names[k], declared[i])) for i, k in enumerate(prob.free)]
+                if over != declared:
+                    starts.append(over)
+            b, made = build_biogeme(vt, rows, declared, lb, ub, algo, overrides=dict(save_iterations=True))
+            if b.modelName != ITER_NAME:
+                raise RuntimeError('harness: model name')
+            names_lib = list(b.free_beta_names)
+            free_names = [prob.names[k] for k in prob.free]
+            perm = [free_names.index(nm) for nm in names_lib]
+            mode = 'estimate' if entry == 'E' else 'quick_estimate'
+            fam = family_of(algo)
+            kind = lambda n: n.rstrip('0123456789')
+            env = 'no-file' if found is None else f'file-of:{kind(prev)}->{kind(vname)}'
+            done = [[variants[v][0], e] for v, e in seq[:t + 1]]
+
+            def viol(clause, what, expected=None, observed=None):
+                rec.violation(f'C07|{clause}|family={fam}|save_iterations,{env}',
+                              f'{clause}: {what} [entry={mode} algorithm={algo} save_iterations=True; model={case["model"]} '
+                              f'table={case["code"]} bounds={bname}; models estimated so far under the name {ITER_NAME} in this '
+                              f'directory (fixN / freeN: parameter N of the template fixed at {ITERFIX} / set free)={done}; '
+                              f'iteration file found={found}; declared start={declared}]', case, expected=expected,
+                              observed=observed)
+
+            if sorted(names_lib) != sorted(free_names):
+                viol('free-parameter-set', f'library free names {names_lib} != {free_names}')
+                break
+            try:
+                r = b.estimate() if entry == 'E' else b.quick_estimate()
+            except Exception as e:  # noqa: BLE001
+                if isinstance(e, RuntimeError):
+                    rec.retire = True
+                viol(f'estimation-raised-{type(e).__name__}', f'{type(e).__name__}: {str(e)[:300]}', observed=repr(e)[:300])
+                summary.append((vname, entry, 'raised', type(e).__name__))
+                break
+            out = run_oracles(rec, viol, b, made, r, prob, refs, lb, ub, starts, algo, {}, mode, perm, names_lib, True,
+                              'iteration-file:' + algo, pure=True)
+            rec.count('iteration_file_estimations')
+            if found is not None:
+                rec.count('iteration_file_estimations_finding_a_file')
+                if any(prob.status[k] != 0 and prob.names[k] in found for k in range(prob.K)):
+                    rec.count('iteration_file_estimations_finding_a_file_that_names_a_fixed_parameter')
+                if len(starts) > 1 and r.data.initLogLike is not None and _rel(
+                        float(r.data.initLogLike), prob.eval(starts[1], order=0)[0]) <= 1e-9 < _rel(
+                        float(r.data.initLogLike), prob.eval(starts[0], order=0)[0]):
+                    rec.count('iteration_file_estimations_started_from_the_file')
+            if out is None:
+                summary.append((vname, entry, 'no-results'))
+                break
+            summary.append((vname, entry, [_r(v) for v in out['xs']], _r(out['ll']), out['conv']))
+            prev = vname
+    finally:
+        remove_iteration_file()
+    rec.case(('iter', case['model'], tuple(case['code']), wide, sidx, algo, tuple(map(tuple, seq))),
+             ('iter', case['model'], case['code'], wide, sidx, algo, seq, summary),
+             outcome=('iter', family_of(algo), tuple((x[0].rstrip('0123456789'), x[1], x[-1]) for x in summary)))
+    rec.count('iteration_file_histories')
+
+
+def iter_plan(tier):
+    """(model, rows, step through the table family, depth, parts)."""
+    if tier == 'quick':
+        return [('L2F', 5, 4, 2, 1), ('N2', 3, 4, 2, 1), ('L3G', 4, 12, 2, 1)]
+    return [('L2F', 5, 4, 2, 1), ('N2', 4, 6, 2, 1), ('L3G', 5, 30, 2, 1), ('L2', 5, 3, 2, 1), ('N3', 4, 9, 2, 1), ('L3', 5, 40, 2, 1),
+            ('L2F', 5, 16, 3, 4), ('N2', 3, 9, 3, 2), ('L3G', 4, 27, 3, 2)]
+
+
+def _iter_table(rec, task, tpl, rows, base):
+    k = task['k']
+    nv = len(status_variants(tpl))
+    seqs = iter_sequences(nv, task['depth'])
+    part, parts = task['ipart']
+    for j, seq in list(enumerate(seqs))[part::parts]:
+        algo = ALGOS[(k + j) % len(ALGOS)]
+        wide = bool((k + j // len(ALGOS)) % 2)
+        case = dict(base, part='iter', wide=wide, sidx=k % 3, algo=algo, seq=seq)
+        check_iter_history(rec, tpl, rows, wide, k % 3, algo, seq, case)
+    if part == 0:
+        rec.sample(dict(base, part='iter', variants=[v[0] for v in status_variants(tpl)], depth=task['depth'], histories=len(seqs)))
+
+
 # =========================================================================== tasks
 def model_plan(tier):
     """(model, rows in the table) per tier; the table family is ALL codes over those rows."""
@@ -1139,6 +1423,26 @@ def tasks(tier, seed):
                 out.append(dict(part='hist', model=model, nrows=nrows, first=i, codes=[list(codes[i])], tier=tier, k=k,
                                 alphabet=alphabet, depth=depth, hpart=[part, parts]))
             k += 1
+    # formulas given as a dictionary: tables of a sub-family x EVERY weight vector over WVALS x keyword / order / form
+    # alphabet of the dictionary (algorithm, bounds, start and entry point rotate)
+    for model, nrows, step in wdict_plan(tier):
+        tpl = T[model]
+        codes = list(itertools.product(range(nsymbols(tpl)), repeat=nrows))
+        parts = max(1, (len(WVALS) ** nrows) // 16)
+        for i in range(step // 2, len(codes), step):
+            for part in range(parts):
+                out.append(dict(part='wdict', model=model, nrows=nrows, first=i, codes=[list(codes[i])], tier=tier,
+                                wpart=[part, parts]))
+    # sequences of estimations of models of one name in one directory with save_iterations=True (iteration file)
+    k = 0
+    for model, nrows, step, depth, parts in iter_plan(tier):
+        tpl = T[model]
+        codes = list(itertools.product(range(nsymbols(tpl)), repeat=nrows))
+        for i in range(step // 2, len(codes), step):
+            for part in range(parts):
+                out.append(dict(part='iter', model=model, nrows=nrows, first=i, codes=[list(codes[i])], tier=tier, k=k,
+                                depth=depth, ipart=[part, parts]))
+            k += 1
     return out
 
 
@@ -1156,7 +1460,13 @@ def run_task(task):
     tier = task['tier']
     for off, code in enumerate(task['codes']):
         ti = task['first'] + off
+        if task['part'] == 'wdict':
+            _wdict_table(rec, task, tpl, dict(model=task['model'], nrows=task['nrows'], code=list(code)), ti)
+            continue
         rows = make_table(tpl, task['nrows'], code)
+        if task['part'] == 'iter':
+            _iter_table(rec, task, tpl, rows, dict(model=task['model'], nrows=task['nrows'], code=list(code)))
+            continue
         prob = Problem(tpl, rows)
         xfree, why = free_optimum(prob)
         if xfree is None:
@@ -1226,6 +1536,29 @@ def replay(case):
     rec = Rec()
     T = templates()
     tpl = T[case['model']]
+    if case['part'] == 'iter':
+        import shutil
+        import tempfile
+        rows = make_table(tpl, case['nrows'], case['code'])
+        here = os.getcwd()
+        private = tempfile.mkdtemp(prefix='c07_iter_')  # the iteration file of the directory is part of the case
+        os.chdir(private)
+        try:
+            check_iter_history(rec, tpl, rows, case['wide'], case['sidx'], case['algo'], case['seq'], case)
+        finally:
+            os.chdir(here)
+            shutil.rmtree(private, ignore_errors=True)
+        return rec.violations
+    if case['part'] == 'wdict':
+        rows = make_table(tpl, case['nrows'], case['code'], case['wvec'])
+        prob = Problem(tpl, rows, weight=fdict_weight(case['fdict']))
+        xfree, why = free_optimum(prob)
+        if xfree is None:
+            return []
+        refs = references(prob, case['lb'], case['ub'], xfree)
+        check_run(rec, tpl, rows, prob, refs, case['bname'], case['lb'], case['ub'], case['bkind'], case['sidx'],
+                  case['variant'], case['mode'], case, fdict=case['fdict'])
+        return rec.violations
     rows = make_table(tpl, case['nrows'], case['code'])
     prob = Problem(tpl, rows)
     xfree, why = free_optimum(prob)
@@ -1253,7 +1586,10 @@ def finalize(agg, tier, seed):
     need = ['estimations', 'converged', 'runs_ending_on_an_active_bound', 'unbounded_algorithm_left_the_box(documented)',
             'bootstrap_histories', 'tables_accepted', 'second_estimates', 'histories', 'history_estimations',
             'history_reestimations_after_an_option_change', 'history_rechecks_of_earlier_results',
-            'history_loose_tolerance_runs_stopping_away_from_the_maximum']
+            'history_loose_tolerance_runs_stopping_away_from_the_maximum',
+            'weighted_estimations_with_unequal_weights', 'estimations_of_a_dictionary_without_weight_formula',
+            'iteration_file_histories', 'iteration_file_estimations_finding_a_file_that_names_a_fixed_parameter',
+            'iteration_file_estimations_started_from_the_file']
     for n in need:
         if agg.counts.get(n, 0) == 0 and not agg.harness_errors:
             agg.harness_errors.append((f'vacuous exploration: counter {n} is zero', {}))
